@@ -36,9 +36,14 @@ SINGLE_TOPOLOGY = {
     "jpsi_full_p_pbar": ["axis"],
     "etac_lambda_lambdabar": ["axis"],
     "jpsi_full_gamma_pi0_pi0": ["axis", "dpd1", "dpd2", "dpd3"],
+    "tau_nu_rho": ["axis"],  # massless spin-1/2 sibling of a massive spin-1 state
 }
+# axis-angle models that are formulated for the summation-range obligation only (their unitarity queries take > 25 min: three
+# rotation chains of half-angle polynomials)
+POOLS_ONLY = ["tau_nu_rho0_pi", "jpsi_gamma_pi0_pi0", "d0_k_3pi_cascade"]
 QUICK = {"jpsi_full_sigmabar_sigma": ["axis", "dpd1", "dpd3"], "lambdac_p_k_pi_Kstar": ["axis", "dpd2"], "lambdac_p_k_pi_L1520": ["dpd1"], "d1_k_k_k0": ["axis", "dpd1"],
-         "jpsi_full_p_pbar": ["axis"], "etac_lambda_lambdabar": ["axis"], "jpsi_full_gamma_pi0_pi0": ["axis", "dpd1"]}
+         "jpsi_full_p_pbar": ["axis"], "etac_lambda_lambdabar": ["axis"], "jpsi_full_gamma_pi0_pi0": ["axis", "dpd1"],
+         "tau_nu_rho": ["axis"]}
 
 
 def aligned_matrix(name: str, align: str, chk: Check | None = None, tag: str = "", replay=None):
@@ -232,6 +237,50 @@ def build_alignment(chk: Check) -> None:
                     chk.smt(f"alignment.unitary[{tag}]:({a};{b})", hyps, acc.eq(Cx(1 if a == b else 0)), function=fn, replay=rep, tactics=("default", "nlsat"), lemma=True,
                             note="for ALL angle values (stronger than the statement, which is about physical events): a refutation counts only if the physical replay reproduces it")
             chk.extra.setdefault("alignment_matrices", []).append({"model": tag, "dimension": n})
+
+
+def inner_pools(chk: Check) -> None:
+    """Axis-angle alignment: every inner sum over a rotated spin projection of final state i runs over exactly the helicities of THAT
+    state: -s_i..s_i in unit steps, without 0 iff state i is massless with integer spin (create_spin_range's contract, C05 part 1).
+    Real models; the index names lambda_<i>^... carry the state id."""
+    import re
+
+    from ampform.sympy import PoolSum
+
+    from contracts.c05_spin import _spec_list
+
+    names = [n for n, al in (QUICK if chk.tier == "quick" else SINGLE_TOPOLOGY).items() if "axis" in al] + POOLS_ONLY
+    for name in names:
+        tag = f"{name}/axis"
+
+        def run(name=name):
+            from vlib import zoo
+
+            r = zoo.reaction(name, "helicity")
+            model = models.make_builder(models.Config(name, "helicity", alignment="axis")).formulate()
+            bad, n = [], 0
+            for ps in model.intensity.expression.atoms(PoolSum):
+                for idx, values in ps.indices:
+                    m = re.match(r"\\?lambda_(\d+)", idx.name)
+                    if not m or int(m.group(1)) not in r.final_state:
+                        continue
+                    i = int(m.group(1))
+                    part = r.final_state[i]
+                    want = [sp.Rational(x.numerator, x.denominator) for x in _spec_list(int(2 * part.spin), part.mass == 0.0)]
+                    n += 1
+                    if sorted(values) != sorted(want):
+                        bad.append(f"sum over {idx} (state {i} = {part.name}, spin {part.spin}, mass {part.mass}) runs over {tuple(values)}, expected {tuple(want)}")
+            return bad, n
+
+        def rep(_m=None, run=run, tag=tag):
+            try:
+                bad, n = run()
+            except Exception as e:  # noqa: BLE001
+                return {"reproduced": True, "input": tag, "observed": f"{type(e).__name__}: {e}"[:300]}
+            return {"reproduced": bool(bad) or n == 0, "input": f"inner alignment sums of the axis-angle model of {tag}", "observed": bad[:4] or f"{n} sums", "expected": "each pool = helicities of the rotated state"}
+
+        r = rep()
+        chk.struct(f"alignment.inner_pools_are_the_helicities_of_the_rotated_state[{tag}]", not r["reproduced"], F_AXIS, witness=r, replay=rep, bounded=True)
 
 
 def wigner_unitarity_lemmas(chk: Check) -> None:
